@@ -74,7 +74,17 @@ XalanOutputStreamPrintWriter::create(
 
 XalanOutputStreamPrintWriter::~XalanOutputStreamPrintWriter()
 {
-    flush();
+    // A destructor must not throw: when this one runs because an
+    // exception is propagating (or, being implicitly noexcept, always)
+    // a second exception from the stream ends the process.  Call
+    // flush() explicitly to see the errors.
+    try
+    {
+        flush();
+    }
+    catch(...)
+    {
+    }
 }
 
 
